@@ -1376,6 +1376,34 @@ class _ConstantsRight(ast.NodeTransformer):
         return node
 
 
+class _NegationsInward(ast.NodeTransformer):
+    """`not (not a and not b)` reads `a or b`: negations are pushed through and / or, double negations vanish, and `not` in front
+    of ==, !=, is, is not, in, not in becomes the opposite operator.  (Order comparisons are left alone: `not x < y` is not
+    `x >= y` for NaN.)"""
+    _INV = {ast.Eq: ast.NotEq, ast.NotEq: ast.Eq, ast.Is: ast.IsNot, ast.IsNot: ast.Is, ast.In: ast.NotIn, ast.NotIn: ast.In}
+
+    def _neg(self, e):
+        if isinstance(e, ast.UnaryOp) and isinstance(e.op, ast.Not):
+            return e.operand
+        if isinstance(e, ast.BoolOp):
+            return ast.BoolOp(op=ast.Or() if isinstance(e.op, ast.And) else ast.And(), values=[self._neg(v) for v in e.values])
+        if isinstance(e, ast.Compare) and len(e.ops) == 1 and type(e.ops[0]) in self._INV:
+            return ast.Compare(left=e.left, ops=[self._INV[type(e.ops[0])]()], comparators=e.comparators)
+        return ast.UnaryOp(op=ast.Not(), operand=e)
+
+    def visit_UnaryOp(self, node):
+        self.generic_visit(node)
+        if isinstance(node.op, ast.Not):
+            inner = node.operand
+            def invertible(e):
+                return (isinstance(e, ast.UnaryOp) and isinstance(e.op, ast.Not)) or \
+                    (isinstance(e, ast.Compare) and len(e.ops) == 1 and type(e.ops[0]) in self._INV) or \
+                    (isinstance(e, ast.BoolOp) and all(invertible(v) for v in e.values))
+            if invertible(inner):
+                return ast.copy_location(self._neg(inner), node)
+        return node
+
+
 def flatten_guards(mods):
     """Every function of the package in guard-clause form: `if c: <leaves> else: <rest>` (also as an if/elif/else staircase) reads
     `if c: <leaves>` followed by <rest>.  Same paths, same order of evaluation; done in place, line numbers stay."""
@@ -1383,6 +1411,8 @@ def flatten_guards(mods):
         if mod == 'luts':
             continue
         _ConstantsRight().visit(tree)
+        _NegationsInward().visit(tree)
+        ast.fix_missing_locations(tree)
         for fn in [x for x in ast.walk(tree) if isinstance(x, ast.FunctionDef)]:
             for _ in range(12):
                 body, ch = _unnest(fn.body)
